@@ -561,7 +561,7 @@ def run(ctx):
     # body:: / bind:: columns carry the attribute's own name to the control / bind, capitals included (shared with C13.R3)
     from . import c13 as _c13
     from .c08 import _take as _take4
-    _take4(r6, _c13.run(ctx), "C13.R3", lambda c: c.startswith("process_header[") and ("body::" in c or "bind::" in c or "control" in c))
+    _take4(r6, ctx.other(_c13), "C13.R3", lambda c: c.startswith("process_header[") and ("body::" in c or "bind::" in c or "control" in c))
     rules.append(r6)
     from .c02 import tree_agreement_rule
     rules.append(tree_agreement_rule(ctx, "C04", "C04.R7"))
@@ -569,7 +569,7 @@ def run(ctx):
     from . import c11 as _c11
     r8 = Rule("C04", "C04.R8", "the generated meta block holds exactly the documented nodes", floor=20,
               necessary="an audit row, instanceName or entity declaration missing from the meta block has no instance node and no bind")
-    src = next((r_ for r_ in _c11.run(ctx) if r_.rid == "C11.R5"), None)
+    src = next((r_ for r_ in ctx.other(_c11) if r_.rid == "C11.R5"), None)
     for o in (src.obligations if src is not None else []):
         if o["construct"].startswith("meta["):
             o2 = dict(o)
@@ -582,7 +582,7 @@ def run(ctx):
     from .c08 import _take as _take_o
     r_oo = Rule("C04", "C04.R9", "every or_other select gets its own companion question", floor=6,
                 necessary="a select without its <name>_other node loses the free-text answer")
-    _take_o(r_oo, _c09o.run(ctx), "C09.R6", lambda c: c.startswith("or_other["))
+    _take_o(r_oo, ctx.other(_c09o), "C09.R6", lambda c: c.startswith("or_other["))
     rules.append(r_oo)
     return rules
 
